@@ -356,9 +356,9 @@ func Tokens(p *Program, sp Speller, ro RenderOpts) []Tok {
 		{"ArrayPrefixLenType", o.ArrPrefix, "u16"},
 		{"FixedStringPadFromLeft", o.PadLeft, "false"},
 		{"FixedStringPadChar", o.PadChar, "' '"},
-		{"JavaPackage", quoted(o.JavaPackage), ""},
-		{"GoPackage", quoted(o.GoPackage), ""},
-		{"GoModule", quoted(o.GoModule), ""},
+		{"JavaPackage", quoted(o.JavaPackage), `""`},
+		{"GoPackage", quoted(o.GoPackage), `""`},
+		{"GoModule", quoted(o.GoModule), `""`},
 	}
 	type shownOpt struct{ name, val, mark string }
 	var shown []shownOpt
@@ -369,8 +369,22 @@ func Tokens(p *Program, sp Speller, ro RenderOpts) []Tok {
 			// so that "default padding" stays default
 			v = x.def
 		}
+		// the documented words may also be written as string literals: LittleEndian = "true"
+		switch x.name {
+		case "LittleEndian", "StringPrefixLenType", "ArrayPrefixLenType", "FixedStringPadFromLeft":
+			if v != "" && r.sp.Choose("optquote:"+x.name, 3) == 1 {
+				v = `"` + v + `"`
+			}
+		}
 		if v != "" {
 			shown = append(shown, shownOpt{x.name, v, ""})
+		}
+	}
+	// the options may be spread over two blocks
+	splitAt := 0
+	if len(shown) >= 2 {
+		if at := r.sp.Choose("optsplit:block", 2*len(shown)); at >= 1 && at < len(shown) {
+			splitAt = at
 		}
 	}
 	for _, e := range o.Extra {
@@ -383,7 +397,20 @@ func Tokens(p *Program, sp Speller, ro RenderOpts) []Tok {
 		r.emit("options")
 		r.emit("{")
 		r.ind++
-		for _, x := range shown {
+		for xi, x := range shown {
+			if splitAt > 0 && xi == splitAt {
+				r.ind--
+				r.line()
+				r.site = "options-close"
+				r.emit("}")
+				r.close("options")
+				r.line()
+				r.mark("options#2")
+				r.site = "options-start"
+				r.emit("options")
+				r.emit("{")
+				r.ind++
+			}
 			r.line()
 			optID := "opt:" + x.name
 			if x.mark != "" {
@@ -405,7 +432,11 @@ func Tokens(p *Program, sp Speller, ro RenderOpts) []Tok {
 		r.line()
 		r.site = "options-close"
 		r.emit("}")
-		r.close("options")
+		if splitAt > 0 {
+			r.close("options#2")
+		} else {
+			r.close("options")
+		}
 	}
 	emitMetas := func() {
 		for _, m := range p.Metas {
